@@ -90,6 +90,34 @@ fn main() {
                         // share, a byte of a trap): no key may get anything out of it - in particular not another secret
                         if rep < 2 {
                             let eb = ct.0.serialize().unwrap().to_vec();
+                            // ... its COUNT fields altered to boundary values (number of traps, number of shares): reading the encapsulation
+                            // alone or at the head of a serialized header must fail cleanly (or give an object that opens nothing)
+                            {
+                                fn leb(mut v: u64) -> Vec<u8> { let mut o = vec![]; loop { let b = (v & 0x7f) as u8; v >>= 7; if v != 0 { o.push(b | 0x80) } else { o.push(b); return o } } }
+                                let hb = hd.serialize().unwrap().to_vec();
+                                let eb = hd.encapsulation.serialize().unwrap().to_vec();      // the header's own encapsulation
+                                let cpos = 16 + 1 + eb[16] as usize * PT + 1;
+                                if eb[16] < 128 && cpos < eb.len() && hb.len() >= eb.len() && hb[..eb.len()] == eb[..] {
+                                    for (field, pos) in [("trap-count", 16usize), ("share-count", cpos)] {
+                                        for v in [u64::MAX, 1u64 << 63, 1u64 << 62, 1u64 << 40, 1u64 << 32, (1u64 << 31) + 1, 300, eb[pos] as u64 + 1] {
+                                            let zb = [&eb[..pos], &leb(v)[..], &eb[pos + 1..]].concat();
+                                            let zh = [&zb[..], &hb[eb.len()..]].concat();
+                                            o += "MXC;";
+                                            let r1 = std::panic::catch_unwind(|| XEnc::deserialize(&zb).ok());
+                                            let r2 = std::panic::catch_unwind(|| EncryptedHeader::deserialize(&zh).ok());
+                                            match (&r1, &r2) { (Err(_), _) | (_, Err(_)) => { o += &format!("MXT 0 {ei} read-{field}={v} PANIC;"); continue; } _ => {} }
+                                            if let Ok(Some(me)) = r1 { for (ki, k) in keys.iter().enumerate() {
+                                                let cz = Covercrypt::default();
+                                                match std::panic::catch_unwind(std::panic::AssertUnwindSafe(|| cz.decaps(k, &me).map(|x| x.is_some()))) {
+                                                    Err(_) => { o += &format!("MXT {ki} {ei} kem-{field}={v} PANIC;"); } Ok(Ok(true)) => { o += &format!("MXT {ki} {ei} kem-{field}={v} OPENED;"); } _ => {} } } }
+                                            if let Ok(Some(mh)) = r2 { for (ki, k) in keys.iter().enumerate() {
+                                                let cz = Covercrypt::default();
+                                                match std::panic::catch_unwind(std::panic::AssertUnwindSafe(|| mh.decrypt(&cz, k, Some(b"ad")).map(|x| x.is_some()))) {
+                                                    Err(_) => { o += &format!("MXT {ki} {ei} header-{field}={v} PANIC;"); } Ok(Ok(true)) => { o += &format!("MXT {ki} {ei} header-{field}={v} OPENED;"); } _ => {} } } }
+                                        }
+                                    }
+                                }
+                            }
                             // ... and its STRUCTURE altered: the list of shares cut to nothing (count byte 0, shares dropped) - the
                             // object still parses; opening it must say "not authorized" or fail, never panic (a panic while the
                             // generator is locked would leave the instance unusable), so a separate instance is used here
